@@ -34,6 +34,7 @@ pub struct Profile {
     pub w_cursor: u32,  // percent of normal-table operations that are a gap-cursor session (needs --features cursor)
     pub w_par: u32,     // percent of write transactions that begin with a multi-threaded section
     pub w_predpanic: u32, // percent of retain / extract steps whose predicate panics after a few calls
+    pub w_burst: u32,     // per mille of write transactions that are a savepoint-counter burst (once per run)
 }
 
 impl Profile {
@@ -62,6 +63,7 @@ impl Profile {
             w_cursor: 0,
             w_par: 0,
             w_predpanic: 0,
+            w_burst: 7,
         };
         match name {
             "table" => base,
@@ -155,6 +157,20 @@ impl Profile {
                 w_abort: 15,
                 w_reopen: 3,
                 ops_per_txn: 5,
+                ..base
+            },
+            // crashsp with the savepoint counter driven past 256 early in the history (ids are stored little-endian)
+            "crashspburst" => Profile {
+                names: vec!["a", "b"],
+                multimaps: false,
+                w_catalog: 2,
+                w_savepoint: 35,
+                w_reader: 0,
+                w_nondurable: 25,
+                w_abort: 15,
+                w_reopen: 3,
+                ops_per_txn: 5,
+                w_burst: 250,
                 ..base
             },
             "fault" => Profile {
@@ -656,7 +672,7 @@ impl Gen {
             self.queue.push_back(json!({"e": "br", "h": h}));
             return;
         }
-        if self.p.w_savepoint > 0 && !self.burst_done && rng.random_range(0..300) < 2 {
+        if self.p.w_savepoint > 0 && !self.burst_done && rng.random_range(0..1000) < self.p.w_burst {
             // a long-running application: the savepoint counter has passed 256 (ids are stored little-endian; every
             // savepoint call advances the one counter) when a persistent savepoint is taken while an older one exists
             self.burst_done = true;
